@@ -17,7 +17,6 @@ MISS_NOTES = {
     "C12/update-composite-fk-any-column-matches": "not reached: the generator builds single-column FOREIGN KEYs only (stated in the check's assumptions)",
     "C18/binary-decimal-scale-dropped": "not reached: DECIMAL(p,s) is not among the generated column types (NUMERIC(p,s) is)",
     "C20/unary-operand-skips-depth-guard": "not reached: with the guard bypassed for one node kind the stack of the verif-profile build only overflows beyond two million nested nodes, more than the 64 KiB-bounded crafted inputs hold (the seeding agent needed a 32 MiB stack and a debug build)",
-    "C10/replace-null-unique-misaligned": "needs REPLACE on a table with two UNIQUE constraints where the new row is NULL in the first and collides on the second",
 }
 
 
@@ -76,7 +75,7 @@ out.append("# Sensitivity: seeded changes vs. the checks\n")
 out.append("Independent sub-agents were given only the text of a few properties and a scratch git worktree of /repo (nothing from /verif) and asked for realistic changes that break a property while the touched crates still compile and their tests still pass, each with a demonstration. "
            "The changes are kept under `seeded/<ID>/<name>/` (`patch.diff`, `demonstration.md`, `meta.json`). `tools/eval_seeded_isolated.sh` applies each patch to a scratch worktree, rebuilds the harness against it and runs the *quick* tier of that property's check; a change counts as detected when the check exits 1 with a VIOLATION line.\n")
 out.append(f"**{len(items)} seeded changes, {det} detected by the quick tier of their own property's check** ({first} of them at their first evaluation; the others after the generators were widened in response to the miss — the round column says when a change was first detected; changes arrived in batches, those for C03/C04/C17-C32 during rounds 2 and 3). The rest are listed with the reason.\n")
-out.append("Rounds: 1 = checks as first built; 2 = after fixing the vacuous index mirror in C15 and adding REPLACE / ON DUPLICATE KEY UPDATE, composite UNIQUE, FOREIGN KEYs in C15, multi-column UPDATE OF, correlation-last EXISTS, OR-of-ANDs join filters and IN in GROUP BY position; 3 = after self-referencing and double FOREIGN KEYs in C12, constant and cross-type WHERE atoms, multi-chunk tables in C04, extra literal/type forms in C23, quote-containing literals in C25, view aliases in C32; 4 = after 1000-3000 row tables in the quick tier of C03/C07 and a second UNIQUE constraint.\n")
+out.append("Rounds: 1 = checks as first built; 2 = after fixing the vacuous index mirror in C15 and adding REPLACE / ON DUPLICATE KEY UPDATE, composite UNIQUE, FOREIGN KEYs in C15, multi-column UPDATE OF, correlation-last EXISTS, OR-of-ANDs join filters and IN in GROUP BY position; 3 = after self-referencing and double FOREIGN KEYs in C12, constant and cross-type WHERE atoms, multi-chunk tables in C04, extra literal/type forms in C23, quote-containing literals in C25, view aliases in C32; 4 = after 1000-3000 row tables in the quick tier of C03/C07 (built from a repeated block of generated rows, since the first version exhausted the choice tape and produced constant columns) and a second UNIQUE constraint.\n")
 out.append("| property | seeded change | slip | outcome | round | signature reported / note |")
 out.append("|---|---|---|---|---|---|")
 for pid, name, kind, outcome, rnd, sig, key, _first in items:
